@@ -251,7 +251,9 @@ def _iterunion_unit():
             import ast as _ast
             from pyvc import extract as _x
             _fn = _x.get_function('concepts/algorithms/common.py', 'iterunion').node
-            _loops = [n for n in _ast.walk(_fn) if isinstance(n, (_ast.While, _ast.For))]
+            from pyvc.engine import accumulator_shape as _acc
+            _loops = [n for n in _ast.walk(_fn) if isinstance(n, (_ast.While, _ast.For))
+                      and not (isinstance(n, _ast.For) and _acc(n) is not None)]      # accumulator loops take no ordinal (engine)
             _w = [i for i, n in enumerate(_loops) if isinstance(n, _ast.While)]
             if len(_w) != 1:
                 raise Unsupported('expected exactly one while loop in iterunion')
